@@ -1,13 +1,13 @@
-\* option -Y (ThrowErrors)
+\* option -Y (ThrowErrors): TLC must report the oscillation
 CONSTANTS
   VarMode = "rel8"
   VarShort = 2
   VarLong = 3
   Padding = FALSE
   RelFpuOK = FALSE
-  Labels = {"la", "lb"}
+  Labels = {"la"}
   MaxItems = 4
-  Fills = {1, 125, 126}
+  Fills = {126}
   AbsWidths = {2}
   EquOffs = {1}
   Orgs = {0}
